@@ -236,7 +236,7 @@ def write_evidence(prop, tier, seed, level, coverage, assumptions, wall, violati
     if extra:
         ev.update(extra)
     p = evidence_path(prop)
-    tmp = p + ".tmp"
+    tmp = p + ".tmp%d" % os.getpid()
     json.dump(ev, open(tmp, "w"), indent=1, sort_keys=True)
     os.replace(tmp, p)
 
